@@ -29,3 +29,14 @@ pub fn domain_guard_patterns_in_router_order(inputs: &[String]) -> Vec<(String, 
         .map(|g| (g.to_string(), g.matchit_pattern()))
         .collect()
 }
+
+/// What the generated `domain_router()` registers for the given (valid) guards: the
+/// `(matchit pattern, domain id)` pairs of the `insert` statements emitted by the code generator,
+/// in the order they are emitted. Invalid guards are skipped.
+pub fn generated_domain_router_inserts(inputs: &[String]) -> Vec<(String, u32)> {
+    let guards: Vec<DomainGuard> = inputs
+        .iter()
+        .filter_map(|i| DomainGuard::new(i.clone()).ok())
+        .collect();
+    crate::compiler::codegen::verif_domain_router_inserts(&guards)
+}
